@@ -4,6 +4,7 @@ import (
 	"fmt"
 	"go/token"
 	"go/types"
+	"sort"
 	"strings"
 
 	"golang.org/x/tools/go/ssa"
@@ -201,8 +202,8 @@ func init() {
 		Controls: []string{"CtlWorkerRegistersItself"},
 		Run:      rulePar16})
 	Register(&Rule{ID: "R-CAN-5", Props: []string{"C10", "C01", "C11", "C12"}, Floor: 6,
-		Doc:      "a parallel stage that stops early on cancellation reports it: for every go statement whose goroutine polls the context (a branch on ctx.Err() != nil that leaves the work loop), either (1) the cancelled edge records an error where the spawner looks — a store of an error into a variable shared with the spawner, or a call of a csvq SetError method — or (2) every path in the spawner from the go statement to a return that may report success passes a call of ctx.Err(). Otherwise a SIGINT / SIGTERM during the stage makes the workers return silently and the stage hands back a half-filled result with a nil error: COMMIT then writes a JSON table with holes over the old file. Decides that the cancellation is turned into an error, not how quickly the workers notice it",
-		Controls: []string{"CtlCancelledStageReportsSuccess"},
+		Doc:      "a parallel stage that stops early on cancellation reports it: for every go statement whose goroutine polls the context (a branch on ctx.Err() != nil that leaves the work loop), either (1) the cancelled edge records an error where the spawner looks — a store of an error into a variable shared with the spawner, or a call of a csvq SetError method — or (2) every path in the spawner from the go statement to a return that may report success takes the nil edge of a test of a cancellation-derived value, or the return hands such a value back as its error. Cancellation-derived are the result of ctx.Err() and the error result of a csvq function or method (resolved statically, to any depth) that is given the context and in which, again, every return that may report success lies behind the nil edge of a test of ctx.Err() of that parameter or returns such a value — the check `if HasError() {return Err()}; if ctx.Err() != nil {return …}; return nil` moved into a helper. A helper whose result the spawner drops, that looks at another context, or that looks at ctx.Err() and returns nil all the same, covers nothing. Otherwise a SIGINT / SIGTERM during the stage makes the workers return silently and the stage hands back a half-filled result with a nil error: COMMIT then writes a JSON table with holes over the old file. Decides that the cancellation is turned into an error, not how quickly the workers notice it",
+		Controls: []string{"CtlCancelledStageReportsSuccess", "CtlCancelledStageHelperSwallows", "CtlCancelledStageHelperResultDropped", "CtlCancelledStageHelperOtherContext"},
 		Run:      ruleCan5})
 }
 
@@ -304,6 +305,11 @@ func isCtxErrCall(v ssa.Value) bool {
 
 func ruleCan5(c *Ctx) {
 	n := 0
+	rep := &can5Reporters{c: c, memo: map[can5Key]int{}}
+	start := len(c.Obs)
+	defer func() {
+		c.negControls(start, "okCancelledStageReported:", "okCancelledStageReportedByHelper", "okCancelledStageHelperTested")
+	}()
 	for _, fn := range c.P.SrcFuncs() {
 		k := 0
 		for _, b := range fn.Blocks {
@@ -393,23 +399,13 @@ func ruleCan5(c *Ctx) {
 					c.Ok(key, c.Pos(g), fmt.Sprintf("%d poll site(s); every cancelled edge records an error for the spawner", len(polls)))
 					continue
 				}
-				// (2) the spawner tests ctx.Err() before every success return
+				// (2) the spawner tests ctx.Err() — itself or through a helper whose error result it
+				// honours — before every success return
 				var leak ssa.Instruction
 				res := fn.Signature.Results()
 				hasErr := res.Len() > 0 && core.IsErrorType(res.At(res.Len()-1).Type())
 				if hasErr {
-					core.WalkFrom(g, func(x ssa.Instruction) bool {
-						if call, ok := x.(*ssa.Call); ok && isCtxErrCall(call) {
-							return false
-						}
-						if r, ok := x.(*ssa.Return); ok && leak == nil && !errorExit(c, r.Block()) {
-							ev := r.Results[len(r.Results)-1]
-							if k, isConst := ev.(*ssa.Const); !isConst || k.Value == nil {
-								leak = r
-							}
-						}
-						return true
-					})
+					leak = rep.leakFrom(fn, g, -1)
 				}
 				switch {
 				case !hasErr:
@@ -417,10 +413,233 @@ func ruleCan5(c *Ctx) {
 				case leak != nil:
 					c.Bad(key, c.Pos(g), fmt.Sprintf("the workers leave their loop when ctx.Err() != nil without recording an error, and the return at %s can report success without the starting function having looked at ctx.Err(): a cancelled stage hands back a partially filled result as if it were complete", c.Pos(leak)))
 				default:
-					c.Ok(key, c.Pos(g), fmt.Sprintf("%d poll site(s); every success return of the spawner lies behind a test of ctx.Err()", len(polls)))
+					c.Ok(key, c.Pos(g), fmt.Sprintf("%d poll site(s); every success return of the spawner lies behind a test of ctx.Err()%s", len(polls), rep.via(fn)))
 				}
 			}
 		}
 	}
 	c.Sites += n
+}
+
+// ---------------------------------------------------------------------------
+// R-CAN-5, clause (2): where the context error is looked at.
+//
+// A value is "cancellation-derived" when it is nil only if the context had not
+// been cancelled when it was produced: the result of ctx.Err(), or the error
+// result of a csvq function (a reporter) in which every return that may report
+// success lies behind the nil edge of a test of such a value — the check
+// `if HasError() {return Err()}; if ctx.Err() != nil {return Convert(ctx.Err())}; return nil`
+// moved into a function or method of its own. The spawner is covered on a path
+// once it has branched on a cancellation-derived value and taken the nil edge,
+// or when it returns such a value as its error; a helper whose result is
+// dropped covers nothing.
+
+type can5Key struct {
+	fn    *ssa.Function
+	param int
+}
+
+type can5Reporters struct {
+	c    *Ctx
+	memo map[can5Key]int // 1 = being decided (pessimistic), 2 = reporter, 3 = not
+	used map[*ssa.Function][]string
+}
+
+// via names the reporters the starting function relied on (for the discharge text).
+func (r *can5Reporters) via(fn *ssa.Function) string {
+	if len(r.used[fn]) == 0 {
+		return ""
+	}
+	names := append([]string(nil), r.used[fn]...)
+	sort.Strings(names)
+	return " (through " + strings.Join(names, ", ") + ")"
+}
+
+// ctxParams: the indices of the parameters of context type
+func can5CtxParams(f *ssa.Function) []int {
+	var out []int
+	for i, p := range f.Params {
+		if isContextType(p.Type()) {
+			out = append(out, i)
+		}
+	}
+	return out
+}
+
+// isReporter: every may-succeed return of f lies behind a look at the error of its context parameter #param.
+func (r *can5Reporters) isReporter(f *ssa.Function, param int) bool {
+	if f == nil || f.Blocks == nil || !inModule(f) || param >= len(f.Params) {
+		return false
+	}
+	res := f.Signature.Results()
+	if res.Len() == 0 || !core.IsErrorType(res.At(res.Len()-1).Type()) {
+		return false
+	}
+	k := can5Key{f, param}
+	switch r.memo[k] {
+	case 1, 3:
+		return false
+	case 2:
+		return true
+	}
+	r.memo[k] = 1
+	ok := len(core.Returns(f)) > 0 && r.leakFrom(f, nil, param) == nil
+	if ok {
+		r.memo[k] = 2
+	} else {
+		r.memo[k] = 3
+	}
+	return ok
+}
+
+// derived: v is nil only if the context (parameter #param of fn; any context when param < 0) was not cancelled.
+func (r *can5Reporters) derived(fn *ssa.Function, v ssa.Value, param int, depth int) bool {
+	if v == nil || depth > 6 {
+		return false
+	}
+	isCtx := func(x ssa.Value) bool {
+		if !isContextType(x.Type()) {
+			return false
+		}
+		if param < 0 {
+			return true
+		}
+		for _, o := range core.Origins(x, false) {
+			if o != ssa.Value(fn.Params[param]) {
+				return false
+			}
+		}
+		return true
+	}
+	switch x := v.(type) {
+	case *ssa.Call:
+		if isCtxErrCall(x) {
+			return isCtx(x.Common().Value)
+		}
+		f := x.Common().StaticCallee()
+		if f == nil || f.Signature.Results().Len() != 1 {
+			return false
+		}
+		return r.reporterCall(fn, x, f, isCtx)
+	case *ssa.Extract:
+		call, ok := x.Tuple.(*ssa.Call)
+		if !ok {
+			return false
+		}
+		f := call.Common().StaticCallee()
+		if f == nil || x.Index != f.Signature.Results().Len()-1 {
+			return false
+		}
+		return r.reporterCall(fn, call, f, isCtx)
+	case *ssa.ChangeInterface:
+		return r.derived(fn, x.X, param, depth+1)
+	case *ssa.Phi:
+		for _, e := range x.Edges {
+			if e == v {
+				continue
+			}
+			if !r.derived(fn, e, param, depth+1) {
+				return false
+			}
+		}
+		return len(x.Edges) > 0
+	case *ssa.UnOp:
+		// a local cell (named result, captured variable): every store that reaches the load
+		if al, ok := x.X.(*ssa.Alloc); ok && x.Op == token.MUL {
+			vals := core.ReachingStores(al, x)
+			for _, s := range vals {
+				if !r.derived(fn, s, param, depth+1) {
+					return false
+				}
+			}
+			return len(vals) > 0
+		}
+	}
+	return false
+}
+
+// reporterCall: call hands a context the caller accepts to a parameter for which f is a reporter.
+func (r *can5Reporters) reporterCall(fn *ssa.Function, call *ssa.Call, f *ssa.Function, isCtx func(ssa.Value) bool) bool {
+	args := call.Common().Args
+	for _, i := range can5CtxParams(f) {
+		if i < len(args) && isCtx(args[i]) && r.isReporter(f, i) {
+			if r.used == nil {
+				r.used = map[*ssa.Function][]string{}
+			}
+			name := r.c.P.Name(f)
+			dup := false
+			for _, u := range r.used[fn] {
+				dup = dup || u == name
+			}
+			if !dup {
+				r.used[fn] = append(r.used[fn], name)
+			}
+			return true
+		}
+	}
+	return false
+}
+
+// leakFrom walks fn from just after `from` (from the entry when from is nil) and returns a return that may
+// report success on a path that has not taken the nil edge of a test of a cancellation-derived value.
+func (r *can5Reporters) leakFrom(fn *ssa.Function, from ssa.Instruction, param int) ssa.Instruction {
+	if len(fn.Blocks) == 0 {
+		return nil
+	}
+	errIdx := fn.Signature.Results().Len() - 1
+	var leak ssa.Instruction
+	seen := map[*ssa.BasicBlock]bool{}
+	var walk func(b *ssa.BasicBlock, start int)
+	walk = func(b *ssa.BasicBlock, start int) {
+		for i := start; i < len(b.Instrs) && leak == nil; i++ {
+			switch x := b.Instrs[i].(type) {
+			case *ssa.Return:
+				if b == fn.Recover || errIdx >= len(x.Results) {
+					return
+				}
+				vals := core.ReturnOperand(x, errIdx)
+				all, isNil := len(vals) > 0, len(vals) > 0
+				for _, v := range vals {
+					all = all && r.derived(fn, v, param, 0)
+					isNil = isNil && (v == nil || core.IsNilConst(v))
+				}
+				if all {
+					return // the cancellation itself (or nil when there was none) is what is returned
+				}
+				if isNil || !errorExit(r.c, b) {
+					leak = x
+				}
+				return
+			case *ssa.If:
+				if v, neq, ok := core.NilCmp(x.Cond); ok && len(b.Succs) == 2 && r.derived(fn, v, param, 0) {
+					// only the edge on which the value is non-nil stays unchecked
+					s := b.Succs[1]
+					if neq {
+						s = b.Succs[0]
+					}
+					if !seen[s] {
+						seen[s] = true
+						walk(s, 0)
+					}
+					return
+				}
+			}
+		}
+		if leak != nil {
+			return
+		}
+		for _, s := range b.Succs {
+			if !seen[s] {
+				seen[s] = true
+				walk(s, 0)
+			}
+		}
+	}
+	if from == nil {
+		seen[fn.Blocks[0]] = true
+		walk(fn.Blocks[0], 0)
+	} else {
+		walk(from.Block(), core.InstrIndex(from)+1)
+	}
+	return leak
 }
